@@ -194,8 +194,9 @@ class RefRule:
         return res
 
     def loose_admit(self, p):
+        """syntax-only reading (converter regex without its validation), in any slash mode incl. one extra slash"""
         return bool(self.loose_rx.fullmatch(p) or (self.branch and self.loose_rx.fullmatch(p + "/"))
-                    or (not self.branch and p.endswith("/") and self.loose_rx.fullmatch(p[:-1])))
+                    or (p.endswith("/") and self.loose_rx.fullmatch(p[:-1])))
 
 
 def _cmp(a, b):
@@ -361,7 +362,7 @@ def classify(refs, strict, merge, path, method, ws, obs):
         cands.add(merge_pairs(p))
     for r in refs:
         st = strict if r.strict is None else r.strict
-        if any(r.loose_admit(q) and r.admit(q, st) is None and r.admit(q, False) is None for q in cands):
+        if any(r.loose_admit(q) and r.admit(q, st) is None and r.admit(q, False, True) is None for q in cands):
             return "match.shadowed_by_rejecting_converter", exp
     if obs[0] == "405" and any(e[0] == "405" for e in exp):
         return "match.405_methods", exp
@@ -681,7 +682,7 @@ DOMAIN_QUICK = (
     "rules, with/without trailing slash, '//' and '///' at the first/last joint, '//' at every joint, leading '//', trailing '//', a "
     "missing and an extra segment, a trailing newline (%0A), '', '/', '//'; methods GET (+POST/HEAD/PUT when a rule has a method set)")
 DOMAIN_THOROUGH = DOMAIN_QUICK + (
-    "; thorough adds: all 4-rule subsets of the 24-rule pool (6 of the 24 orders each), seeded samples: 6000 triples of "
+    "; thorough adds: all 4-rule subsets of the 24-rule pool (4 of the 24 orders each), seeded samples: 4000 triples of "
     "the 103-rule pool (all orders), 2000 5- and 6-rule subsets of the 24-rule pool (6 orders each), 3000 random 2..6-rule "
     "maps with up to 3 segments per rule (4 orders each)")
 
@@ -702,8 +703,8 @@ def run(tier, seed, reg=None):
     tasks += [("sets", ("W", c, None, seed)) for c in _chunks(list(itertools.combinations(range(nW), 2)), 12)]
     if tier == "thorough":
         exhaustive = False  # the thorough tier adds seeded samples to the exhaustive quick domain
-        tasks += [("sets", ("S", c, 6, seed)) for c in _chunks(list(itertools.combinations(range(nS), 4)), 8)]
-        tri = [tuple(sorted(r.sample(range(nM), 3))) for _ in range(6000)]
+        tasks += [("sets", ("S", c, 4, seed)) for c in _chunks(list(itertools.combinations(range(nS), 4)), 8)]
+        tri = [tuple(sorted(r.sample(range(nM), 3))) for _ in range(4000)]
         tasks += [("sets", ("M", c, None, seed)) for c in _chunks(tri, 12)]
         five = [tuple(sorted(r.sample(range(nS), k))) for k in (5, 6) for _ in range(1000)]
         tasks += [("sets", ("S", c, 6, seed)) for c in _chunks(five, 4)]
